@@ -599,7 +599,7 @@ func main() {
 		nstress *= 4 // thorough: spend the budget on interleavings
 	}
 	for i := 0; i < nstress; i++ {
-		if i%10 == 0 { // forced schedules wait for a writer that (on correct code) is blocked: few of them
+		if i%10 == 0 && i < 600 { // forced schedules wait for a writer that (on correct code) is blocked: few of them
 			rng, sub := r.Rng.Fork()
 			runCase(r, sub, []string{genStress(rng, "stackforced", r.Scale)})
 			rng, sub = r.Rng.Fork()
